@@ -1,6 +1,6 @@
 (* C16 — property theorems (statements only; proofs live in Proofs*.v). *)
 From Coq Require Import ZArith QArith Qabs List Bool.
-Require Import QV.C16.Model QV.C16.Spec QV.C16.Proofs QV.C16.Proofs2 QV.C16.Proofs3 QV.C16.Proofs4 QV.C16.Proofs5 QV.C16.Proofs_term QV.C16.Proofs6 QV.C16.Proofs_fuel QV.C16.Proofs7 QV.C16.Proofs8 QV.C16.Proofs9 QV.C16.Gen_tabor QV.C16.GenEq QV.C16.Gen_loop QV.C16.GenEqLoop QV.C16.GenLibParse QV.C16.Gen_parse QV.C16.GenEqParse.
+Require Import QV.C16.Model QV.C16.Spec QV.C16.Proofs QV.C16.Proofs2 QV.C16.Proofs3 QV.C16.Proofs4 QV.C16.Proofs5 QV.C16.Proofs_term QV.C16.Proofs6 QV.C16.Proofs_fuel QV.C16.Proofs7 QV.C16.Proofs8 QV.C16.Proofs9 QV.C16.Proofs10 QV.C16.Gen_tabor QV.C16.GenEq QV.C16.Gen_loop QV.C16.GenEqLoop QV.C16.GenLibParse QV.C16.Gen_parse QV.C16.GenEqParse.
 Import ListNotations.
 Open Scope Z_scope.
 
@@ -149,10 +149,24 @@ Theorem C16_limits_single_mode_refuted :
 Proof. exists (ex_cfg 3 4), ex_tbl, ex_single. exact single_mode_tables_unchecked. Qed.
 Print Assumptions C16_limits_single_mode_refuted.
 
-(* (5) a rejected program produces no tables *)
-Theorem C16_reject : forall c tbl p e, compile c tbl p = Err e -> forall o, compile c tbl p <> Ok o.
-Proof. exact reject_no_tables. Qed.
-Print Assumptions C16_reject.
+(* (5) "accepted and plays, or rejected with an error" as ONE statement (round 5; the former C16_reject —
+   `compile = Err e -> compile <> Ok o` — was a tautology and is gone).  For every good program within the two closed
+   fuel bounds of (1c) (so that the evaluated `compile` stands for the unbounded loops), every configuration and table
+   satisfying the hypotheses of C16_plays: EITHER the compiler model emits tables that play exactly the specification
+   and respect the limits (lower table bound in advanced mode only, see the refuted clause above), OR it returns an
+   error that is neither the model's name for an unexpected exception (ECrash) nor the fuel artefact — i.e. one of
+   TaborException / ValueError / AssertionError.  Nothing in between: no output that plays something else. *)
+Theorem C16_accepts_or_rejects : forall c tbl prog,
+  good prog = true ->
+  (forall w1 w2 d1 d2, nth_error tbl w1 = Some d1 -> nth_error tbl w2 = Some d2 -> wf_cls d1 = wf_cls d2 -> d1 = d2) ->
+  (forall w d, nth_error tbl w = Some d -> (wf_len d == inject_Z (wf_n d))%Q) ->
+  (fab_bound 2 (l_ch (root_of prog)) <= fab_fuel)%nat ->
+  (prep_bound (l_ch (root_of prog)) <= prep_fuel)%nat ->
+  (exists o s, compile c tbl prog = Ok o /\ spec c tbl prog = Some s /\ expand o = Some s /\
+               segments_ok o = true /\ tables_max_ok c o = true /\ (o_advanced o = true -> tables_ok c o = true))
+  \/ (exists e, compile c tbl prog = Err e /\ e <> ECrash /\ e <> EFuel).
+Proof. exact compile_accepts_or_rejects. Qed.
+Print Assumptions C16_accepts_or_rejects.
 
 (* (6) "rejected with an error", not with a crash: for EVERY program of the input domain (`good`: repetition counts
    >= 0 — zero counts included —, inner nodes carry no waveform), every fuel, configuration and waveform table, the
@@ -397,3 +411,53 @@ Theorem C16_source_split_one_child : forall l,
   split_last l = option_map (fun i => split_at i l) (scan_gen (rev l) None).
 Proof. exact gen_split_last_eq. Qed.
 Print Assumptions C16_source_split_one_child.
+
+(* ---- round 5 (audit) ---------------------------------------------------------------------------------------------
+   The quantiser used by the SPECIFICATION (`Model.v2u`, shared with the compiler model: it is the definition of
+   "voltage converted to a 14-bit code") characterised without its formula: defined exactly on the voltages within
+   [offset - amplitude, offset + amplitude]; the code is an integer nearest to
+   (v - offset + amplitude) / (2 amplitude) * 16383, and on an exact tie it is the even one. *)
+Theorem C16_code_is_nearest : forall amp off v w, (0 < amp)%Q -> v2u amp off v = Some w ->
+  (Qabs (v - off) <= amp)%Q /\
+  (Qabs ((v - off + amp) / ((2 # 1) * amp) * (16383 # 1) - inject_Z w) <= 1 # 2)%Q /\
+  ((Qabs ((v - off + amp) / ((2 # 1) * amp) * (16383 # 1) - inject_Z w) == 1 # 2)%Q -> Z.even w = true).
+Proof. exact v2u_nearest. Qed.
+Print Assumptions C16_code_is_nearest.
+
+Theorem C16_code_defined_iff_in_range : forall amp off v,
+  (exists w, v2u amp off v = Some w) <-> (Qabs (v - off) <= amp)%Q.
+Proof. exact v2u_defined_iff. Qed.
+Print Assumptions C16_code_defined_iff_in_range.
+
+(* C16_plays with the hypothesis the harness inputs actually satisfy: waveforms of one equality class need equal
+   length, sample count and equal data only ON THE CHANNELS THE CONFIGURATION USES (`restrict c` drops every other
+   channel; Waveform equality in the compiler is taken after get_subset_for_channels(used_channels)).  Compiler
+   model and specification are invariant under `restrict c` of the whole table. *)
+Theorem C16_plays_used_channels : forall c tbl prog o,
+  good prog = true ->
+  (forall w1 w2 d1 d2, nth_error tbl w1 = Some d1 -> nth_error tbl w2 = Some d2 -> wf_cls d1 = wf_cls d2 ->
+     restrict c d1 = restrict c d2) ->
+  (forall w d, nth_error tbl w = Some d -> (wf_len d == inject_Z (wf_n d))%Q) ->
+  compile c tbl prog = Ok o ->
+  exists s, spec c tbl prog = Some s /\ expand o = Some s.
+Proof. exact compile_plays_used. Qed.
+Print Assumptions C16_plays_used_channels.
+
+(* non-vacuity: a table with two objects per class that differ on an unused channel (the hypothesis of C16_plays is
+   FALSE for it), a program that plays all four objects; accepted, two segments *)
+Theorem C16_plays_used_channels_nonvacuous :
+  good ex_prog_twins = true /\
+  (forall w1 w2 d1 d2, nth_error ex_tbl_unused w1 = Some d1 -> nth_error ex_tbl_unused w2 = Some d2 ->
+     wf_cls d1 = wf_cls d2 -> restrict (ex_cfg 3 5) d1 = restrict (ex_cfg 3 5) d2) /\
+  (forall w d, nth_error ex_tbl_unused w = Some d -> (wf_len d == inject_Z (wf_n d))%Q) /\
+  ~ (forall w1 w2 d1 d2, nth_error ex_tbl_unused w1 = Some d1 -> nth_error ex_tbl_unused w2 = Some d2 ->
+       wf_cls d1 = wf_cls d2 -> d1 = d2) /\
+  exists o, compile (ex_cfg 3 5) ex_tbl_unused ex_prog_twins = Ok o /\ (length (o_segs o) = 2)%nat.
+Proof. exact ex_hyps_used. Qed.
+Print Assumptions C16_plays_used_channels_nonvacuous.
+
+(* non-vacuity of the segment stage (2): the first example waveform is packed into 384 words *)
+Theorem C16_plays_segment_nonvacuous : exists bin,
+  sample_segment (ex_cfg 3 5) (ex_wf 0 (1 # 4) 192) = Ok bin /\ length bin = 384%nat.
+Proof. exact ex_segment. Qed.
+Print Assumptions C16_plays_segment_nonvacuous.
